@@ -292,7 +292,7 @@ def _ok_sites(flow):
     return out
 
 
-def length_admissibility(F, rep, rule, floor=4):
+def length_admissibility(F, rep, rule, floor=5):
     rep.rule(rule, "length admissibility of structured patterns: wherever an arm `Pattern::V(b)` that pairs b's sub-pattern lists with a value list (zip) is reached, it can succeed exactly "
                    "when sum(len(sub-pattern lists)) + skipped == len(values) - or <= when V's payload has an optional absorber (array spread) and it is present; decided by evaluating "
                    "the arm's path conditions for all lengths 0..4 (a pattern that also matches longer / shorter values lets an earlier arm win over the arm that fits)")
